@@ -28,7 +28,56 @@ Reading of Python that this translator (together with Model/PyPrelude.lean) impl
               another list); parameters are never mutated.  `x = []; c.append(x)` (adjacent) makes `x` an alias of `c[-1]`
               for declared alias pairs: later `x.append(e)` is `Py.appendLast c e`; `c` may change its length only there.
   evaluation  left to right; fallible sub-expressions are lifted with `(← …)` to the statement, so they may not occur under
-              `and` / `or` / a conditional expression (refused); `elif` is emitted as a nested block
+              `and` / `or` (refused); `elif` is emitted as a nested block
+
+Rules added for `split_complex_pt` / `rotate_complex_pt` (each as narrow as these two functions need):
+
+  a - b       on non-negative ints is the CHECKED subtraction `(← Py.sub a b)`: the difference when `b ≤ a`, otherwise the
+              explicit translator fault `Err.fault "translator:negative"` (Python would continue with a negative int, which
+              the `Nat` typing cannot represent) - never a silent truncation
+  a if c else b   `(if c then a else b)` when both branches are infallible, otherwise `(← (if c then A else B))` where each
+              branch is its own `do` block, so that only the chosen branch is evaluated (and can raise), as in Python; a branch
+              of type `T` is coerced to `Option T` when the other branch is `None`-able
+  list(map(lambda x: e, l)), [e for x in l]
+              `List.map (fun x => e) l`, or `(← List.mapM (fun x => do …) l)` when `e` is fallible (elements in order, the
+              first exception aborts, as `list(map(…))` and a comprehension do); one lambda parameter / one `for` clause
+              without `if`; `x` gets the element type of `l`; `map` is accepted only directly under `list(…)`
+  dict        a `dict` with int (or `None`) keys is the association list of its items in insertion order with pairwise
+              different keys: `{k: v}` (constant keys), `k in d` -> `Py.dictHas d k`, `d[k]` -> `(← Py.dictGet d k)`
+              (KeyError), `d[k] = v` -> `Py.dictSet d k v` (replaces the value of an existing key, else appends an item)
+  unpacking   `a, b = e` and nested targets `(a, b), (c, d) = e` for a value typed as (nested) 2-tuples: `e` is evaluated
+              once, then the names are assigned left to right; a loop target `j, (fr, to)` whose second component is a
+              *list* is unpacked with `Py.unpack2` (ValueError unless the list has exactly two elements) at the start of
+              each iteration
+  break       every loop that contains a `break` of its own gets a Boolean field `brk<k>` in `Vars`: it is set to `false`
+              before the fold, `break` is `v := { v with brk<k> := true }; return v`, and the step function starts with
+              `if v.brk<k> then return v` - the remaining iterations are no-ops that do not even unpack their element, which
+              is what leaving the loop means for a loop over an already evaluated list.  (`break` inside `try` is refused.)
+  return in a loop   only the bare `return` of a generator: a field `returned`, set by the `return`, tested at the start of the
+              step function of every enclosing loop and after each of these folds (there `return v` inside a step function,
+              `return v.yielded` in the function body)
+  generators  a function with `generator=T` in its stub is translated to the LIST of the values it yields (what
+              `list(f(…))` is): a field `yielded : List T`, `yield e` appends `e`, `return` / falling off the end returns
+              `v.yielded`.  An exception raised after some values were yielded makes the whole result that exception.
+              Generator objects are only accepted where they are consumed at once: `for x in f(…)`, `for x in chain(f(…), g(…))`
+              (`chain` must be `itertools.chain`; the lists are concatenated, the first generator's exception comes first)
+  recursion   a function with `recursive=True` calls itself through a parameter: the definition is by structural recursion on
+              an extra first argument `fuel`; with no fuel left the call is `Err.fault "RecursionError"`; step functions get
+              the function for the recursive calls as their first parameter `recur`
+  calls       `g(args)` of a function translated before (`callees`): positional / keyword arguments matched with the
+              parameters of its stub, all of them supplied.  `make_loop_index` returns both of its result shapes together
+              (see its stub); the caller's literal `components=True/False` picks the pair the Python caller receives.
+  nested def  `def h(p…)` as a statement of the function body itself (not under `if` / `for`), translated like a function of
+              its own named `<f>.<h>` whose parameters are the enclosing function's parameters followed by its own.  A call
+              `h(a, b)` is `(← <f>.<h> params… a b)` where `params…` are the CURRENT values of the enclosing parameters at the
+              call (`v.p` when the enclosing function rebinds `p`): a closure reads the variable when it runs, and it runs
+              inside that call, because `h` may only be called, never stored or returned (checked).  `h` may not assign the
+              captured names, may not touch the enclosing function's locals, may not be used before its `def` (definite
+              assignment), and may not recurse.
+  a % b       on non-negative ints `(← Py.mod a b)`: ZeroDivisionError for `b = 0`
+  l[:-1]      `List.dropLast l` (all but the last element; `[]` for `[]`)
+  None-able int   a value typed `Option Nat` (`turns`): `x == n` / `x != n` against an int compares `x` with `some n`
+              (`None == 3` is False); `x > n`, `x - n` need the int: `(← Py.unwrap x)`, TypeError for `None` as in Python 3
 """
 import ast, os, sys
 
@@ -39,7 +88,11 @@ NAT, CHAR, STR, BOOL = 'Nat', 'Char', 'String', 'Bool'
 def L(t): return ('List', t)
 def O(t): return ('Option', t)
 def P(a, b): return ('Prod', a, b)
+def D(k, v): return ('Dict', k, v)
 LOC = P(NAT, NAT)
+PTAB = L(L(O(LOC)))                 # pair table
+STAB = L(L(STR))                    # strand table (domain names)
+PART = P(STAB, PTAB)
 
 def ty(t, top=True):
     if isinstance(t, str):
@@ -48,6 +101,8 @@ def ty(t, top=True):
         s = 'List ' + ty(t[1], False)
     elif t[0] == 'Option':
         s = 'Option ' + ty(t[1], False)
+    elif t[0] == 'Dict':
+        s = 'List ' + ty(P(t[1], t[2]), False)
     else:
         s = ty(t[1], False) + ' × ' + ty(t[2], False)
     return s if top else '(' + s + ')'
@@ -60,12 +115,79 @@ def ident(n):
 EXC = {'SecondaryStructureError': 'Err.secondaryStructure'}
 
 
+def own_nodes(fn):
+    """the nodes of a function body without the bodies of nested function definitions"""
+    todo = list(fn.body)
+    while todo:
+        n = todo.pop()
+        yield n
+        if not isinstance(n, ast.FunctionDef):
+            todo.extend(ast.iter_child_nodes(n))
+
+
+def own_breaks(loop):
+    """the `break` statements that leave `loop` itself (not those of loops nested in it)"""
+    found, todo = [], list(loop.body)
+    while todo:
+        n = todo.pop()
+        if isinstance(n, ast.Break):
+            found.append(n)
+        elif isinstance(n, ast.Try) and any(isinstance(m, ast.Break) for m in ast.walk(n)):
+            raise Shape('break inside try')
+        elif not isinstance(n, (ast.For, ast.While, ast.FunctionDef)):
+            todo.extend(ast.iter_child_nodes(n))
+    return found
+
+
+def strip_arrow(code):
+    """`X` if code is `(← X)` with an infallible X, else None"""
+    if code.startswith('(← ') and code.endswith(')') and '←' not in code[3:]:
+        depth = 0
+        for k, ch in enumerate(code):
+            depth += ch == '('
+            depth -= ch == ')'
+            if depth == 0 and k < len(code) - 1:
+                return None
+        return code[3:-1]
+    return None
+
+
+def monadic(code):
+    """an expression of type `Py.M T` for the translation `code : T` of an expression (which may contain lifted `(← …)`):
+    its own `do` block, so that the lifts stay inside it"""
+    x = strip_arrow(code)
+    if x is not None:
+        return '(%s)' % x
+    if '←' not in code:
+        return '(pure %s)' % code
+    return '(do pure %s)' % code
+
+
 class FuncTx:
-    def __init__(self, spec, fn):
+    def __init__(self, spec, fn, parent=None, specs=None):
         self.spec, self.fn = spec, fn
         self.name = spec['name']
+        self.parent = parent
+        self.specs = specs or {}                                # stubs of the functions translated before (callees)
         self.params = dict(spec['params'])
         self.param_order = [p for p, _ in spec['params']]
+        if parent is not None:                                  # nested def: the enclosing parameters come first
+            own = self.param_order
+            cap = [q for q in parent.param_order if q not in own]
+            for n in ast.walk(fn):                              # (an assignment would make the name a local of the nested def)
+                if isinstance(n, ast.Name) and isinstance(n.ctx, (ast.Store, ast.Del)) and n.id in cap:
+                    raise Shape('%s: assignment to the captured variable %s' % (self.name, n.id))
+            self.params = dict([(q, parent.params[q]) for q in cap] + list(spec['params']))
+            self.param_order = cap + own
+        self.generator = spec.get('generator')                  # type of the yielded values
+        self.recursive = bool(spec.get('recursive'))
+        self.nested_specs = dict(spec.get('nested', {}))
+        self.nested = {}                                        # name -> FuncTx of a nested def
+        self.nested_text = []
+        self.flags = []                                         # Boolean fields for break / return inside loops
+        self.loop_stack = []                                    # (k, has_break) of the loops around the current statement
+        self.ret_flag = False
+        self.ind0 = '    ' if self.recursive else '  '
         self.locals = dict(spec['locals'])
         self.sets = set(spec.get('sets', ()))
         self.aliases = dict(spec.get('aliases', {}))          # X -> container Y
@@ -77,7 +199,7 @@ class FuncTx:
         self.assumed_found = []
         # parameters that the body rebinds become locals initialised from the parameter
         self.rebound = []
-        for node in ast.walk(fn):
+        for node in ast.walk(fn) if not self.nested_specs else sorted(own_nodes(fn), key=lambda n: (getattr(n, 'lineno', 0), getattr(n, 'col_offset', 0))):
             if isinstance(node, (ast.Assign, ast.AugAssign)):
                 for t in (node.targets if isinstance(node, ast.Assign) else [node.target]):
                     for n in ast.walk(t):
@@ -85,6 +207,23 @@ class FuncTx:
                             self.rebound.append(n.id)
         for p in self.rebound:
             self.locals[p] = self.params[p]
+        if self.generator is not None:
+            if not any(isinstance(n, ast.Yield) for n in own_nodes(fn)):
+                raise Shape('%s: no yield in a function declared as a generator' % self.name)
+            if any(isinstance(n, ast.Return) and n.value is not None for n in own_nodes(fn)):
+                raise Shape('%s: return with a value in a generator' % self.name)
+            self.ret_flag = any(isinstance(n, ast.Return) for st in own_nodes(fn) if isinstance(st, ast.For) for n in ast.walk(st))
+        elif any(isinstance(n, (ast.Yield, ast.YieldFrom)) for n in own_nodes(fn)):
+            raise Shape('%s: yield in a function that is not declared as a generator' % self.name)
+        if any(isinstance(n, ast.YieldFrom) for n in own_nodes(fn)):
+            raise Shape('%s: yield from' % self.name)
+        for n in ('yielded', 'returned', 'recur', 'fuel'):
+            if n in self.params or n in self.locals:
+                raise Shape('%s: the name %s is used by the translation' % (self.name, n))
+
+    def recur_code(self):
+        """the function for recursive calls: the parameter `recur` of a step function, the smaller instance in the body"""
+        return 'recur' if self.loop_stack else '(py_%s fuel)' % self.spec.get('lean', self.name)
 
     # ---- names -------------------------------------------------------------------------------------------------
     def var(self, n):
@@ -179,7 +318,52 @@ class FuncTx:
                 if isinstance(ta, tuple) and ta[0] == 'List' and tb == ta:
                     return '(%s ++ %s)' % (a, b), ta
                 raise Shape('%s: + on %s and %s' % (self.name, ty(ta), ty(tb)))
+            if isinstance(node.op, ast.Sub):
+                a, ta = self.ex(node.left, NAT)
+                b, tb = self.ex(node.right, NAT)
+                if ta == O(NAT):                                    # `None - 1` is a TypeError
+                    a, ta = self.need(a, ta, NAT), NAT
+                if ta == NAT and tb == NAT:
+                    return '(← Py.sub %s %s)' % (a, b), NAT        # checked: translator fault instead of a negative int
+                raise Shape('%s: - on %s and %s' % (self.name, ty(ta), ty(tb)))
+            if isinstance(node.op, ast.Mod):
+                a, ta = self.ex(node.left, NAT)
+                b, tb = self.ex(node.right, NAT)
+                if ta == NAT and tb == NAT:
+                    return '(← Py.mod %s %s)' % (a, b), NAT        # ZeroDivisionError
+                raise Shape('%s: %% on %s and %s' % (self.name, ty(ta), ty(tb)))
             raise Shape('%s: operator %s' % (self.name, type(node.op).__name__))
+        if isinstance(node, ast.IfExp):
+            c = self.truthy(node.test)
+            (a, ta), (b, tb) = self.ex(node.body, expect), self.ex(node.orelse, expect)
+            t = ta
+            if ta != tb:
+                if isinstance(ta, tuple) and ta[0] == 'Option' and ta[1] in (tb, '?'):
+                    t = ta if ta[1] == tb else O(tb)
+                elif isinstance(tb, tuple) and tb[0] == 'Option' and tb[1] in (ta, '?'):
+                    t = tb if tb[1] == ta else O(ta)
+                else:
+                    raise Shape('%s: conditional expression of a %s and a %s' % (self.name, ty(ta), ty(tb)))
+                a, b = self.need(a, ta, t), self.need(b, tb, t)
+            if '←' not in a and '←' not in b:
+                return '(if %s then %s else %s)' % (c, a, b), t
+            return '(← (if %s then %s else %s))' % (c, monadic(a), monadic(b)), t
+        if isinstance(node, ast.Dict):
+            if not (expect and expect[0] == 'Dict'):
+                raise Shape('%s: cannot type the dict %s' % (self.name, ast.unparse(node)))
+            if not all(isinstance(k, ast.Constant) for k in node.keys) or len({k.value for k in node.keys}) != len(node.keys):
+                raise Shape('%s: dict keys must be different constants' % self.name)
+            items = []
+            for k, x in zip(node.keys, node.values):
+                (kc, kt), (xc, xt) = self.ex(k, expect[1]), self.ex(x, expect[2])
+                items.append('(%s, %s)' % (self.need(kc, kt, expect[1]), self.need(xc, xt, expect[2])))
+            return '[' + ', '.join(items) + ']', expect
+        if isinstance(node, ast.ListComp):
+            if len(node.generators) != 1 or node.generators[0].ifs or node.generators[0].is_async \
+                    or not isinstance(node.generators[0].target, ast.Name):
+                raise Shape('%s: comprehension shape: %s' % (self.name, ast.unparse(node)[:60]))
+            g = node.generators[0]
+            return self.mapped(g.target.id, node.elt, g.iter, expect)
         if isinstance(node, ast.UnaryOp) and isinstance(node.op, ast.Not):
             return '(!' + self.truthy(node.operand) + ')', BOOL
         if isinstance(node, ast.BoolOp):
@@ -200,6 +384,10 @@ class FuncTx:
                 if isinstance(r, ast.Call) and isinstance(r.func, ast.Name) and r.func.id == 'set' and len(r.args) == 1:
                     r = r.args[0]                                  # `x in set(l)` is `x in l`
                 b, tb = self.ex(r)
+                if isinstance(tb, tuple) and tb[0] == 'Dict':
+                    a, ta = self.ex(l, tb[1])
+                    c = '(Py.dictHas %s %s)' % (b, self.need(a, ta, tb[1]))
+                    return (c if isinstance(op, ast.In) else '(!%s)' % c), BOOL
                 if not (isinstance(tb, tuple) and tb[0] == 'List'):
                     raise Shape('%s: `in` on a %s' % (self.name, ty(tb)))
                 a, ta = self.ex(l, tb[1])
@@ -213,12 +401,18 @@ class FuncTx:
                 a, ta = self.ex(l)
                 b, tb = self.ex(r, ta)
             if isinstance(op, (ast.Eq, ast.NotEq)):
+                if ta == O(NAT) and tb == NAT:                      # `None == 3` is False: compare as None-able ints
+                    b, tb = '(some %s)' % b, ta
+                elif tb == O(NAT) and ta == NAT:
+                    a, ta = '(some %s)' % a, tb
                 if ta != tb:
                     raise Shape('%s: == on %s and %s' % (self.name, ty(ta), ty(tb)))
                 return '(%s %s %s)' % (a, '==' if isinstance(op, ast.Eq) else '!=', b), BOOL
             sym = {ast.Lt: '<', ast.Gt: '>', ast.LtE: '≤', ast.GtE: '≥'}.get(type(op))
             if sym is None:
                 raise Shape('%s: comparison %s' % (self.name, type(op).__name__))
+            if (ta, tb) in ((O(NAT), NAT), (NAT, O(NAT))):         # `None > 0` is a TypeError
+                a, b, ta, tb = self.need(a, ta, NAT), self.need(b, tb, NAT), NAT, NAT
             if ta == NAT and tb == NAT:
                 return '(decide (%s %s %s))' % (a, sym, b), BOOL
             # tuples of two ints (a None-able side raises TypeError)
@@ -233,6 +427,9 @@ class FuncTx:
                 if sl.step is not None or not (isinstance(tb, tuple) and tb[0] == 'List'):
                     raise Shape('%s: slice shape' % self.name)
                 c = base
+                if sl.lower is None and isinstance(sl.upper, ast.UnaryOp) and isinstance(sl.upper.op, ast.USub) \
+                        and isinstance(sl.upper.operand, ast.Constant) and sl.upper.operand.value == 1:
+                    return '(List.dropLast %s)' % base, tb          # l[:-1]
                 if sl.upper is not None:
                     u, tu = self.ex(sl.upper)
                     if tu != NAT: raise Shape('slice bound')
@@ -242,6 +439,9 @@ class FuncTx:
                     if tl != NAT: raise Shape('slice bound')
                     c = '(List.drop %s %s)' % (lo, c)
                 return c, tb
+            if isinstance(tb, tuple) and tb[0] == 'Dict' and not isinstance(sl, ast.Slice):
+                k, tk = self.ex(sl, tb[1])
+                return '(← Py.dictGet %s %s)' % (base, self.need(k, tk, tb[1])), tb[2]
             if isinstance(tb, tuple) and tb[0] == 'Option' and isinstance(tb[1], tuple) and tb[1][0] == 'Prod':
                 base, tb = '(← Py.unwrap %s)' % base, tb[1]
             if isinstance(tb, tuple) and tb[0] == 'Prod':
@@ -256,9 +456,21 @@ class FuncTx:
                     raise Shape('%s: index of type %s' % (self.name, ty(ti)))
                 return '(← Py.idx %s %s)' % (base, i), tb[1]
             raise Shape('%s: subscript of a %s' % (self.name, ty(tb)))
+        if isinstance(node, ast.Call) and isinstance(node.func, ast.Name) and \
+                (node.func.id in self.specs or node.func.id in self.nested or node.func.id == self.spec['name'].split('.')[-1]):
+            return self.call(node)
         if isinstance(node, ast.Call) and not node.keywords:
             f = node.func
             if isinstance(f, ast.Name):
+                if f.id == 'list' and len(node.args) == 1 and isinstance(node.args[0], ast.Call) and not node.args[0].keywords \
+                        and isinstance(node.args[0].func, ast.Name) and node.args[0].func.id == 'map':
+                    m = node.args[0]
+                    if len(m.args) != 2 or not isinstance(m.args[0], ast.Lambda):
+                        raise Shape('%s: map shape: %s' % (self.name, ast.unparse(m)[:60]))
+                    la = m.args[0].args
+                    if len(la.args) != 1 or la.vararg or la.kwarg or la.kwonlyargs or la.defaults or la.posonlyargs:
+                        raise Shape('%s: lambda shape' % self.name)
+                    return self.mapped(la.args[0].arg, m.args[0].body, m.args[1], expect)
                 if f.id == 'len' and len(node.args) == 1:
                     a, ta = self.ex(node.args[0])
                     if not (isinstance(ta, tuple) and ta[0] == 'List'): raise Shape('len of ' + ty(ta))
@@ -288,6 +500,100 @@ class FuncTx:
                     x, tx = self.ex(node.args[0], ta[1])
                     return '(← Py.index %s %s)' % (a, self.need(x, tx, ta[1])), NAT
         raise Shape('%s: unsupported expression: %s' % (self.name, ast.unparse(node)[:80]))
+
+    def mapped(self, x, body, iter_, expect):
+        """`list(map(lambda x: body, iter_))` / `[body for x in iter_]`"""
+        it, tit = self.ex(iter_)
+        if not (isinstance(tit, tuple) and tit[0] == 'List'):
+            raise Shape('%s: map / comprehension over a %s' % (self.name, ty(tit)))
+        if x in self.loopvars or x in self.locals or x in self.params:
+            raise Shape('%s: the bound variable %s shadows another variable' % (self.name, x))
+        saved = dict(self.loopvars)
+        self.loopvars[x] = tit[1]
+        want = expect[1] if expect and expect[0] == 'List' else None
+        b, tb = self.ex(body, want)
+        if want is not None:
+            b, tb = self.need(b, tb, want), want
+        self.loopvars = saved
+        if '←' not in b:
+            return '(List.map (fun (%s : %s) => %s) %s)' % (ident(x), ty(tit[1]), b, it), L(tb)
+        return '(← List.mapM (fun (%s : %s) => %s) %s)' % (ident(x), ty(tit[1]), monadic(b), it), L(tb)
+
+    def call(self, node, as_iter=False):
+        """a call of a nested def, of the function itself (recursion) or of a function translated before"""
+        f = node.func.id
+        own = self.spec['name'].split('.')[-1]
+        if f in self.nested:
+            tx = self.nested[f]
+            # the captured parameters of the enclosing function are passed with the value they have NOW (a closure reads the
+            # variable when it runs, and it runs inside this call)
+            cspec, params, head = tx.spec, tx.spec['params'], '%s %s' % (tx.name, ' '.join(self.var(q)[0] for q in tx.param_order[:len(tx.param_order) - len(tx.spec['params'])]))
+        elif f == own:
+            if not self.recursive or self.parent is not None:
+                raise Shape('%s: recursive call in a function that is not declared recursive' % self.name)
+            cspec, params, head = self.spec, self.spec['params'], self.recur_code()
+        else:
+            cspec, params, head = self.specs[f], self.specs[f]['params'], 'py_' + self.specs[f].get('lean', f)
+            if cspec.get('recursive'):
+                head += ' fuel' if False else ''
+                raise Shape('%s: call of the recursive function %s from another function' % (self.name, f))
+        if cspec.get('generator') is not None and not as_iter:
+            raise Shape('%s: the generator %s(…) is not consumed by a for loop' % (self.name, f))
+        names = [q for q, _ in params]
+        given = dict(zip(names, node.args))
+        if len(node.args) > len(names):
+            raise Shape('%s: too many arguments for %s' % (self.name, f))
+        for kw in node.keywords:
+            if kw.arg is None or kw.arg not in names or kw.arg in given:
+                raise Shape('%s: keyword argument of %s' % (self.name, f))
+            given[kw.arg] = kw.value
+        if set(given) != set(names):
+            raise Shape('%s: %s is called without %s (defaults are not modelled)' % (self.name, f, sorted(set(names) - set(given))))
+        args = []
+        for q, tq in params:                       # evaluated in the order written: positional first, then keywords
+            c, tc = self.ex(given[q], tq)
+            args.append(self.need(c, tc, tq))
+        order = [q for q in names[:len(node.args)]] + [kw.arg for kw in node.keywords]
+        if order != names and any('←' in a for a in args):
+            raise Shape('%s: fallible keyword arguments out of order' % self.name)
+        code, t = '(← %s %s)' % (head, ' '.join(args)), cspec['ret']
+        if 'ret_pick' in cspec:                    # the callee's translation returns all its result shapes together
+            q, table = cspec['ret_pick']
+            if not (isinstance(given[q], ast.Constant) and given[q].value in table):
+                raise Shape('%s: %s of %s must be a literal' % (self.name, q, f))
+            proj, t = table[given[q].value]
+            code = '((fun r => %s) %s)' % (proj, code)
+        return code, t
+
+    def iter_ex(self, node):
+        """the iterable of a `for`: a list, a generator call, or `chain` of generator calls / lists"""
+        def one(n):
+            if isinstance(n, ast.Call) and isinstance(n.func, ast.Name) and \
+                    (n.func.id in self.specs or n.func.id in self.nested or n.func.id == self.spec['name'].split('.')[-1]):
+                return self.call(n, as_iter=True)
+            return self.ex(n)
+        if isinstance(node, ast.Call) and isinstance(node.func, ast.Name) and node.func.id == 'chain' and not node.keywords \
+                and len(node.args) == 2:
+            if not self.spec.get('chain_is_itertools'):
+                raise Shape('%s: chain is not itertools.chain' % self.name)
+            (a, ta), (b, tb) = one(node.args[0]), one(node.args[1])
+            if ta != tb or not (isinstance(ta, tuple) and ta[0] == 'List'):
+                raise Shape('%s: chain of a %s and a %s' % (self.name, ty(ta), ty(tb)))
+            return '(%s ++ %s)' % (a, b), ta
+        return one(node)
+
+    def destructure(self, target, code, t, out, ind):
+        """assign the components of the value `code : t` (nested 2-tuples) to the names of `target`, left to right"""
+        if isinstance(target, ast.Name):
+            if target.id in self.loopvars or target.id not in self.locals:
+                raise Shape('%s: unpacking into %s' % (self.name, target.id))
+            out.append(ind + self.set_local(target.id, self.need(code, t, self.locals[target.id])))
+            return
+        if isinstance(target, ast.Tuple) and len(target.elts) == 2 and isinstance(t, tuple) and t[0] == 'Prod':
+            self.destructure(target.elts[0], code + '.1', t[1], out, ind)
+            self.destructure(target.elts[1], code + '.2', t[2], out, ind)
+            return
+        raise Shape('%s: cannot unpack a %s into %s' % (self.name, ty(t), ast.unparse(target)))
 
     # ---- statements --------------------------------------------------------------------------------------------
     def set_local(self, n, code):
@@ -351,6 +657,29 @@ class FuncTx:
                 raise Shape('continue outside a loop')
             out.append(ind + 'return v      -- continue')
             return
+        if isinstance(st, ast.Break):
+            if not inloop or not self.loop_stack or self.loop_stack[-1] is None:
+                raise Shape('%s: break outside a loop (or inside try)' % self.name)
+            out.append(ind + self.set_local('brk%d' % self.loop_stack[-1], 'true'))
+            out.append(ind + 'return v      -- break')
+            return
+        if isinstance(st, ast.Expr) and isinstance(st.value, ast.Yield):
+            if self.generator is None or st.value.value is None:
+                raise Shape('%s: yield shape' % self.name)
+            c, tc = self.ex(st.value.value, self.generator)
+            out.append(ind + self.set_local('yielded', '(v.yielded ++ [%s])' % self.need(c, tc, self.generator)) + '      -- yield')
+            return
+        if isinstance(st, ast.Return) and self.generator is not None:
+            if st.value is not None:
+                raise Shape('%s: return with a value in a generator' % self.name)
+            if self.loop_stack:
+                if not inloop:
+                    raise Shape('%s: return inside try inside a loop' % self.name)
+                out.append(ind + self.set_local('returned', 'true'))
+                out.append(ind + 'return v      -- return (inside a loop)')
+            else:
+                out.append(ind + 'return v.yielded      -- return')
+            return
         if isinstance(st, ast.Return):
             if inloop:
                 raise Shape('%s: return inside a loop' % self.name)
@@ -383,6 +712,23 @@ class FuncTx:
                     raise Shape('%s: simultaneous assignment that reads its targets' % self.name)
                 for e, val in zip(tg.elts, st.value.elts):
                     self.assign_name(e.id, val, out, ind)
+                return
+            if isinstance(tg, ast.Tuple) and not isinstance(st.value, ast.Tuple):
+                c, tc = self.ex(st.value)
+                self.ntmp = getattr(self, 'ntmp', 0) + 1
+                out.append(ind + 'let t%d := %s      -- %s = …' % (self.ntmp, c, ast.unparse(tg)))
+                self.destructure(tg, 't%d' % self.ntmp, tc, out, ind)
+                return
+            if isinstance(tg, ast.Subscript) and isinstance(tg.value, ast.Name) and tg.value.id in self.locals \
+                    and self.locals[tg.value.id][0] == 'Dict':
+                x = tg.value.id                                             # d[k] = e
+                self.mutable(x)
+                cx, tx = self.var(x)
+                k, tk = self.ex(tg.slice, tx[1])
+                e, te = self.ex(st.value, tx[2])
+                if '←' in k:                                                # Python evaluates the value before the key
+                    raise Shape('%s: fallible key in %s' % (self.name, ast.unparse(st)[:40]))
+                out.append(ind + self.set_local(x, '(Py.dictSet %s %s %s)' % (cx, self.need(k, tk, tx[1]), self.need(e, te, tx[2]))))
                 return
             if isinstance(tg, ast.Subscript):
                 # X[i] = e   |   X[i][j] = e
@@ -519,10 +865,9 @@ class FuncTx:
     def loop(self, st, out, ind):
         if st.orelse:
             raise Shape('%s: for … else' % self.name)
-        for n in ast.walk(st):
-            if isinstance(n, ast.Break):
-                raise Shape('%s: break' % self.name)
-        it, tit = self.ex(st.iter)
+        has_break = bool(own_breaks(st))
+        has_ret = self.ret_flag and any(isinstance(n, ast.Return) for n in ast.walk(st))
+        it, tit = self.iter_ex(st.iter)
         if not (isinstance(tit, tuple) and tit[0] == 'List'):
             raise Shape('%s: iteration over a %s' % (self.name, ty(tit)))
         stored = {n.id for s in st.body for n in ast.walk(s) if isinstance(n, ast.Name) and isinstance(n.ctx, ast.Store)}
@@ -537,18 +882,29 @@ class FuncTx:
         k = self.nloops
         saved = dict(self.loopvars)
         binds = []
+        def bind(target, code, t):
+            if isinstance(target, ast.Name) and target.id != '_':
+                self.loopvars[target.id] = t
+                binds.append('let %s := %s' % (ident(target.id), code))
+            elif isinstance(target, ast.Tuple) and len(target.elts) == 2 and isinstance(t, tuple) and t[0] == 'Prod':
+                bind(target.elts[0], code + '.1', t[1])
+                bind(target.elts[1], code + '.2', t[2])
+            elif isinstance(target, ast.Tuple) and len(target.elts) == 2 and isinstance(t, tuple) and t[0] == 'List':
+                tmp = code.replace('.', '_')                       # a list unpacked into two names: ValueError unless len 2
+                binds.append('let %s ← Py.unpack2 %s' % (tmp, code))
+                bind(target.elts[0], tmp + '.1', t[1])
+                bind(target.elts[1], tmp + '.2', t[1])
+            else:
+                raise Shape('%s: loop target %s' % (self.name, ast.unparse(st.target)))
         if isinstance(st.target, ast.Name):
             if st.target.id == '_':
                 arg = '_x'
             else:
                 arg = ident(st.target.id)
                 self.loopvars[st.target.id] = et
-        elif isinstance(st.target, ast.Tuple) and len(st.target.elts) == 2 and all(isinstance(e, ast.Name) for e in st.target.elts) \
-                and isinstance(et, tuple) and et[0] == 'Prod':
+        elif isinstance(st.target, ast.Tuple) and len(st.target.elts) == 2 and isinstance(et, tuple) and et[0] == 'Prod':
             arg = 'x%d' % k
-            for j, e in enumerate(st.target.elts):
-                self.loopvars[e.id] = et[1 + j]
-                binds.append('let %s := %s.%d' % (ident(e.id), arg, j + 1))
+            bind(st.target, arg, et)
         else:
             raise Shape('%s: loop target %s' % (self.name, ast.unparse(st.target)))
         for n in self.loopvars:
@@ -557,14 +913,29 @@ class FuncTx:
         outer = [(ident(n), t) for n, t in saved.items()]
         sig = ' '.join('(%s : %s)' % (ident(p), ty(self.params[p])) for p in self.param_order)
         sig += ''.join(' (%s : %s)' % (n, ty(t)) for n, t in outer)
+        rec_arg = ''
+        if self.recursive:
+            sig = '(recur : %s → Py.M (%s)) ' % (' → '.join(ty(t, False) for _, t in self.spec['params']), ty(self.spec['ret'])) + sig
+            rec_arg = self.recur_code() + ' '
         body = ['def %s.loop%d %s (v : %s.Vars) (%s : %s) : Py.M %s.Vars := do' % (self.name, k, sig, self.name, arg, ty(et), self.name),
                 '  let mut v := v']
+        if has_ret:
+            body.append('  if v.returned then return v      -- after return')
+        if has_break:
+            body.append('  if v.brk%d then return v      -- after break' % k)
+            self.flags.append('brk%d' % k)
         body += ['  ' + b for b in binds]
+        self.loop_stack.append(k if has_break else None)
         self.stmts(st.body, body, '  ', True)
+        self.loop_stack.pop()
         body.append('  return v')
         self.loops.append('\n'.join(body))
-        call = '%s.loop%d %s' % (self.name, k, ' '.join([ident(p) for p in self.param_order] + [n for n, _ in outer]))
+        call = '%s.loop%d %s%s' % (self.name, k, rec_arg, ' '.join([ident(p) for p in self.param_order] + [n for n, _ in outer]))
+        if has_break:
+            out.append(ind + self.set_local('brk%d' % k, 'false'))
         out.append(ind + 'v ← List.foldlM (%s) v %s      -- for %s in %s' % (call, it, ast.unparse(st.target), ast.unparse(st.iter)))
+        if has_ret:
+            out.append(ind + ('if v.returned then return v' if self.loop_stack else 'if v.returned then return v.yielded'))
         # loop variables are not visible after the loop
         after = set(self.loopvars) - set(saved)
         self.loopvars = saved
@@ -573,19 +944,63 @@ class FuncTx:
     def run(self):
         # loop variables must not be used outside their loop
         out = []
-        self.stmts(self.fn.body, out, '  ', False)
+        body = list(self.fn.body)
+        if self.nested_specs:
+            # nested defs: statements of the body itself (not under if / for), each translated as a function of its own
+            for d in [st for st in body if isinstance(st, ast.FunctionDef)]:
+                body.remove(d)
+                if d.name not in self.nested_specs or d.decorator_list:
+                    raise Shape('%s: nested def %s has no typing stub' % (self.name, d.name))
+                nspec = dict(self.nested_specs[d.name], name='%s.%s' % (self.name, d.name), path=self.spec['path'])
+                if nspec.get('generator') is not None or nspec.get('recursive') or nspec.get('nested'):
+                    raise Shape('%s: nested def %s: only plain functions' % (self.name, d.name))
+                check_signature(d, nspec)
+                definite_assignment(d, [q for q, _ in nspec['params']] + self.param_order + list(self.specs), nspec['name'])
+                tx = FuncTx(nspec, d, parent=self, specs=self.specs)
+                self.nested_text.append(tx.run())
+                self.nested[d.name] = tx
+            if set(self.nested) != set(self.nested_specs):
+                raise Shape('%s: nested def(s) not found among the statements of the body: %s' % (self.name, sorted(set(self.nested_specs) - set(self.nested))))
+            called = {id(n.func) for n in own_nodes(self.fn) if isinstance(n, ast.Call)}
+            for n in self.nested:
+                if n in self.locals or n in self.params:
+                    raise Shape('%s: %s is both a nested def and a variable' % (self.name, n))
+                if any(isinstance(m, ast.Name) and m.id == n and id(m) not in called for m in own_nodes(self.fn)):
+                    raise Shape('%s: the nested def %s is used other than by calling it' % (self.name, n))
+        if self.generator is not None:
+            self.locals['yielded'] = L(self.generator)
+            if self.ret_flag:
+                self.locals['returned'] = BOOL
+        self.stmts(body, out, self.ind0, False)
+        if self.generator is not None and not (body and isinstance(body[-1], ast.Return)):
+            out.append(self.ind0 + 'return v.yielded      -- end of the generator')
+        for f in self.flags:
+            self.locals[f] = BOOL
         missing = self.assume - set(self.assumed_found)
         if missing:
             raise Shape('%s: assertion(s) no longer present: %s' % (self.name, sorted(missing)))
         fields = '\n'.join('  %s : %s := default' % (ident(n), ty(t)) for n, t in self.locals.items())
         text = ['/-- local variables of `%s` -/' % self.name,
                 'structure %s.Vars where\n%s' % (self.name, fields), '']
+        text = self.nested_text + text
         text += [l + '\n' for l in self.loops]
         sig = ' '.join('(%s : %s)' % (ident(p), ty(self.params[p])) for p in self.param_order)
         init = ', '.join('%s := %s' % (ident(p), ident(p)) for p in self.rebound)
-        text.append('/-- `%s` (%s), statement by statement -/' % (self.name, self.spec['path']))
-        text.append('def py_%s %s : Py.M (%s) := do' % (self.name, sig, ty(self.spec['ret'])))
-        text.append('  let mut v : %s.Vars := { %s }' % (self.name, init))
+        if self.parent is not None:
+            text.append('/-- the nested function `%s` (%s), statement by statement -/' % (self.name, self.spec['path']))
+            text.append('def %s %s : Py.M (%s) := do' % (self.name, sig, ty(self.spec['ret'])))
+        elif self.recursive:
+            text.append('/-- `%s` (%s), statement by statement; `list(…)` of the generator, recursion depth bounded by `fuel` -/'
+                        % (self.name, self.spec['path']) if self.generator is not None else
+                        '/-- `%s` (%s), statement by statement; recursion depth bounded by `fuel` -/' % (self.name, self.spec['path']))
+            text.append('def py_%s (fuel : Nat) %s : Py.M (%s) :=' % (self.spec.get('lean', self.name), sig, ty(self.spec['ret'])))
+            text.append('  match fuel with')
+            text.append('  | 0 => throw (Err.fault "RecursionError")')
+            text.append('  | fuel + 1 => do')
+        else:
+            text.append('/-- `%s` (%s), statement by statement -/' % (self.name, self.spec['path']))
+            text.append('def py_%s %s : Py.M (%s) := do' % (self.spec.get('lean', self.name), sig, ty(self.spec['ret'])))
+        text.append(self.ind0 + 'let mut v : %s.Vars := { %s }' % (self.name, init))
         text += out
         return '\n'.join(text) + '\n'
 
@@ -595,10 +1010,11 @@ def definite_assignment(fn, params, name):
     loop bodies may read what was written before the loop or earlier in the body)"""
     def walk(body, have):
         for st in body:
+            if isinstance(st, ast.FunctionDef):             # a nested def is checked on its own (FuncTx.run); its name is bound
+                have.add(st.name)
+                continue
             if isinstance(st, ast.For):
-                for n in ast.walk(st.iter):
-                    if isinstance(n, ast.Name) and isinstance(n.ctx, ast.Load) and n.id not in have and n.id not in BUILTINS:
-                        raise Shape('%s: %s may be read before it is assigned' % (name, n.id))
+                check(st.iter, have)
                 inner = set(have) | {n.id for n in ast.walk(st.target) if isinstance(n, ast.Name)}
                 walk(st.body, inner)
                 continue
@@ -606,7 +1022,7 @@ def definite_assignment(fn, params, name):
                 check(st.test, have)
                 a, b = set(have), set(have)
                 walk(st.body, a); walk(st.orelse, b)
-                ends = lambda blk: blk and isinstance(blk[-1], (ast.Raise, ast.Continue, ast.Return))
+                ends = lambda blk: blk and isinstance(blk[-1], (ast.Raise, ast.Continue, ast.Return, ast.Break))
                 if ends(st.body) and ends(st.orelse): pass
                 elif ends(st.body): have |= b
                 elif ends(st.orelse): have |= a
@@ -629,18 +1045,46 @@ def definite_assignment(fn, params, name):
                     if isinstance(t, ast.Name):
                         have.add(t.id)
                     elif isinstance(t, ast.Tuple):
-                        have |= {e.id for e in t.elts if isinstance(e, ast.Name)}
+                        have |= {e.id for e in ast.walk(t) if isinstance(e, ast.Name)}
                     else:
                         check(t, have, load_too=True)
                 continue
             check(st, have)
     def check(node, have, load_too=False):
-        for n in ast.walk(node):
-            if isinstance(n, ast.Name) and (isinstance(n.ctx, ast.Load) or load_too) and n.id not in have and n.id not in BUILTINS:
-                raise Shape('%s: %s may be read before it is assigned' % (name, n.id))
+        # names bound by a lambda / a comprehension are visible in its body only
+        if isinstance(node, ast.Lambda):
+            return check(node.body, set(have) | {a.arg for a in node.args.args}, load_too)
+        if isinstance(node, ast.ListComp):
+            inner = set(have)
+            for g in node.generators:
+                check(g.iter, inner, load_too)
+                inner |= {n.id for n in ast.walk(g.target) if isinstance(n, ast.Name)}
+                for c in g.ifs:
+                    check(c, inner, load_too)
+            return check(node.elt, inner, load_too)
+        if isinstance(node, ast.Name):
+            if (isinstance(node.ctx, ast.Load) or load_too) and node.id not in have and node.id not in BUILTINS:
+                raise Shape('%s: %s may be read before it is assigned' % (name, node.id))
+            return
+        for n in ast.iter_child_nodes(node):
+            check(n, have, load_too)
     walk(fn.body, set(params))
 
-BUILTINS = {'len', 'list', 'set', 'range', 'reversed', 'enumerate', 'IndexError', 'SecondaryStructureError', 'None', 'True', 'False'}
+BUILTINS = {'len', 'list', 'set', 'range', 'reversed', 'enumerate', 'IndexError', 'SecondaryStructureError', 'None', 'True', 'False',
+            'map', 'chain'}
+
+
+def check_signature(fn, spec):
+    """the parameters of the typing stub are the parameters of the definition (others must be unused by the body)"""
+    declared = [a.arg for a in fn.args.args]
+    want = [p for p, _ in spec['params']]
+    if fn.args.vararg or fn.args.kwarg or fn.args.kwonlyargs or fn.args.posonlyargs:
+        raise Shape('%s: parameter list shape' % spec['name'])
+    for a in declared:
+        if a not in want and any(isinstance(n, ast.Name) and n.id == a for n in ast.walk(ast.Module(body=fn.body, type_ignores=[]))):
+            raise Shape('%s: parameter %s is used but not declared in the typing stub' % (spec['name'], a))
+    if [a for a in declared if a in want] != want:
+        raise Shape('%s: parameters changed: %s' % (spec['name'], declared))
 
 
 FUNCS = [
@@ -664,12 +1108,54 @@ FUNCS = [
          aliases={'loop': 'loop_index'},
          # the two result shapes are returned together; the caller picks by `components`
          ret_override={'(loop_index, exterior) if not components else (loop_index, myext)': '(v.loop_index, v.exterior, v.myext)'},
+         # … which a translated caller does from the literal it passes for `components`
+         ret_pick=('components', {False: ('(r.1, r.2.1)', P(L(L(NAT)), L(NAT))), True: ('(r.1, r.2.2)', P(L(L(NAT)), L(L(O(NAT)))))}),
          ret=P(L(L(NAT)), P(L(NAT), L(L(O(NAT)))))),
     dict(path='dsdobjects/complex_utils.py', name='rotate_complex_once',
          params=[('seq', L(STR)), ('sst', L(CHAR))],
          locals={'stack': L(NAT), 'p': NAT, 'nstr': L(CHAR)},
          ret=P(L(STR), L(CHAR))),
+    # `list(split_complex_pt(stab, ptab))`.  `ext` is the `myext` of make_loop_index: a list of 2-element LISTS `[cl, cl']`
+    # (hence Py.unpack2 for the loop target); `seen` is a dict whose keys are the entries of these lists (ints; `None` only as
+    # far as the typing goes)
+    dict(path='dsdobjects/complex_utils.py', name='split_complex_pt',
+         params=[('stab', STAB), ('ptab', PTAB)],
+         locals={'li': L(L(NAT)), 'ext': L(L(O(NAT))), 'seen': D(O(NAT), NAT), 'i': NAT,
+                 'iss': STAB, 'ipt': PTAB, 'oss': STAB, 'opt': PTAB},
+         nested={'splice': dict(params=[('i', NAT), ('j', NAT)],
+                                locals={'innerss': STAB, 'innerpt': PTAB, 'outerss': STAB, 'outerpt': PTAB},
+                                ret=P(PART, PART))},
+         callees=['make_loop_index'],
+         generator=PART, recursive=True,
+         ret=L(PART)),
+    # `wrap(x, m)` for a non-negative `x` (what its callers below pass; the docstring's negative `x` is outside the typing)
+    dict(path='dsdobjects/complex_utils.py', name='wrap', lean='wrap_nat',      # Gen/PyExprs has the Int version `py_wrap`
+         params=[('x', NAT), ('m', NAT)], locals={},
+         ret=NAT),
+    # `list(rotate_complex_pt(stab, ptab, turns))`; `turns` is an int or None
+    dict(path='dsdobjects/complex_utils.py', name='rotate_complex_pt',
+         params=[('stab', STAB), ('ptab', PTAB), ('turns', O(NAT))],
+         locals={},
+         nested={'rotate_locus': dict(params=[('x', O(LOC)), ('n', NAT)], locals={}, ret=O(LOC))},
+         callees=['wrap'],
+         generator=PART, recursive=True,
+         ret=L(PART)),
 ]
+
+
+def imports_chain(tree):
+    """`chain` is bound exactly once at module level, by `from itertools import … chain …`"""
+    binders = []
+    for n in tree.body:
+        if isinstance(n, ast.ImportFrom):
+            binders += [(n.module, a.name) for a in n.names if (a.asname or a.name) == 'chain']
+        elif isinstance(n, ast.Import):
+            binders += [(None, a.name) for a in n.names if (a.asname or a.name.split('.')[0]) == 'chain']
+        elif isinstance(n, (ast.FunctionDef, ast.ClassDef)) and n.name == 'chain':
+            binders.append((None, 'def'))
+        elif isinstance(n, (ast.Assign, ast.AugAssign, ast.AnnAssign, ast.For, ast.With)):
+            binders += [(None, 'assign') for m in ast.walk(n) if isinstance(m, ast.Name) and isinstance(m.ctx, ast.Store) and m.id == 'chain']
+    return binders == [('itertools', 'chain')]
 
 
 def find_function(tree, name):
@@ -684,21 +1170,26 @@ def gen_pyfuncs(repo):
            'import DsdVerif.Model.PyPrelude', '', 'set_option linter.unusedVariables false', '', 'namespace Dsd.Gen', 'open Dsd', '']
     summary = {}
     trees = {}
+    done = {}
     for spec in FUNCS:
         if spec['path'] not in trees:
             trees[spec['path']] = ast.parse(open(os.path.join(repo, spec['path'])).read())
-        fn = find_function(trees[spec['path']], spec['name'])
-        declared = [a.arg for a in fn.args.args]
+        tree = trees[spec['path']]
+        fn = find_function(tree, spec['name'])
         want = [p for p, _ in spec['params']]
         # parameters the stub does not list must be unused by the body (e.g. `turns` of rotate_complex_once)
-        for a in declared:
-            if a not in want and any(isinstance(n, ast.Name) and n.id == a for n in ast.walk(ast.Module(body=fn.body, type_ignores=[]))):
-                raise Shape('%s: parameter %s is used but not declared in the typing stub' % (spec['name'], a))
-        if [a for a in declared if a in want] != want:
-            raise Shape('%s: parameters changed: %s' % (spec['name'], declared))
-        definite_assignment(fn, want, spec['name'])
-        tx = FuncTx(spec, fn)
+        check_signature(fn, spec)
+        callees = {}
+        for c in spec.get('callees', ()):
+            if c not in done:
+                raise Shape('%s: the callee %s is not translated before it' % (spec['name'], c))
+            find_function(tree, c)                              # … and is the module-level function of that name
+            callees[c] = done[c]
+        spec = dict(spec, chain_is_itertools=imports_chain(tree))
+        definite_assignment(fn, want + list(callees) + ([spec['name']] if spec.get('recursive') else []), spec['name'])
+        tx = FuncTx(spec, fn, specs=callees)
         out.append(tx.run())
+        done[spec['name']] = spec
         summary[spec['name']] = {'statements': sum(1 for _ in ast.walk(fn) if isinstance(_, ast.stmt)) - 1,
                                  'loops': tx.nloops, 'source_lines': (fn.end_lineno - fn.lineno + 1)}
     out.append('end Dsd.Gen')
